@@ -220,8 +220,9 @@ class Check:
         if workers is None:
             workers = 1 if mode in ("trace", "sim") else NCPU
         cmd = ["java", "-XX:+UseParallelGC", "-Xss64m"]
-        if heap:
-            cmd.append("-Xmx" + heap)
+        if heap is None:
+            heap = os.environ.get("VERIF_TLC_HEAP") or ("8g" if mode == "mc" else "4g")
+        cmd.append("-Xmx" + heap)
         if dfs:
             cmd.append("-Dtlc2.tool.queue.IStateQueue=StateDeque")
         cmd += ["-cp", "/opt/veriftools/tla/tla2tools.jar:/opt/veriftools/tla/CommunityModules-deps.jar",
